@@ -6,8 +6,10 @@ package format
 import (
 	"encoding/json"
 	"fmt"
+	"os"
 	"sort"
 	"strings"
+	"time"
 
 	"verif/checks/g3util"
 	"verif/mx"
@@ -385,6 +387,14 @@ func init() {
 	})
 }
 
+var trace = os.Getenv("G3_TRACE") != ""
+
+// A crashed builtin leaves the rest of its pipeline spinning for ever inside the worker, so cases the
+// statement does not cover are no longer run once their class has shown crashBudget crashes.
+const crashBudget = 2
+
+var crashes = map[string]int{}
+
 func run(c *vlib.Ctx) {
 	mx.Init(c.WorkDir)
 	n := 0
@@ -407,13 +417,27 @@ func run(c *vlib.Ctx) {
 					return false
 				}
 				w := wit{f, doc}
+				if why := notAsserted(f, doc); why != "" && crashes[f+why] >= crashBudget {
+					c.Extra("not run (not asserted, and "+fmt.Sprint(crashBudget)+" cases of the same class already crashed murex in this worker) — "+why, 1)
+					continue
+				}
+				if trace {
+					fmt.Fprintln(os.Stderr, "TRACE", g3util.JSON(w))
+				}
+				t0 := time.Now()
 				res := check(w)
+				if trace {
+					fmt.Fprintln(os.Stderr, "TOOK", time.Since(t0), res.outcome)
+				}
 				c.Eval(res.nontrivial, f+" "+fam.name+" "+res.outcome)
 				if res.skipped != "" {
 					c.Extra("not asserted — "+res.skipped, 1)
 				}
 				if n%9973 == 1 {
 					c.Sample(map[string]any{"case": w, "stdout": vlib.Clip(res.stdout, 160)})
+				}
+				if res.clause == "no-panic" || res.clause == "terminates" {
+					crashes[f+res.skipped]++
 				}
 				if res.clause != "" {
 					mw, mres := minimise(w, res)
